@@ -72,6 +72,20 @@ func (b *c07Builder) node(name string) *yaml.Node {
 	return n
 }
 
+// seqS: the anchored sequence g["S"] (registered before its elements are built: it may contain an alias to itself).
+func (b *c07Builder) seqS() *yaml.Node {
+	if n, ok := b.nodes["\x00S"]; ok {
+		return n
+	}
+	n := &yaml.Node{Kind: yaml.SequenceNode, Tag: "!!seq", Anchor: "S"}
+	b.nodes["\x00S"] = n
+	el, _ := b.g["S"].([]any)
+	for _, x := range el {
+		n.Content = append(n.Content, b.value(x.(map[string]any)))
+	}
+	return n
+}
+
 func (b *c07Builder) value(v map[string]any) *yaml.Node {
 	switch v["t"] {
 	case "s":
@@ -88,6 +102,11 @@ func (b *c07Builder) value(v map[string]any) *yaml.Node {
 			n.Content = append(n.Content, b.value(x.(map[string]any)))
 		}
 		return n
+	case "sd":
+		return b.seqS()
+	case "sa":
+		t := b.seqS()
+		return &yaml.Node{Kind: yaml.AliasNode, Alias: t, Value: "S"}
 	}
 	fatal("c07: bad value %v", v)
 	return nil
@@ -159,6 +178,26 @@ func (t *c07Text) value(v map[string]any, b *strings.Builder) {
 		b.WriteString("*" + v["n"].(string) + " ")
 	case "n":
 		t.mapping(v["n"].(string), b)
+	case "sd":
+		if t.defined["\x00S"] {
+			t.ok = false
+			return
+		}
+		t.defined["\x00S"] = true
+		b.WriteString("&S [")
+		el, _ := t.g["S"].([]any)
+		for i, x := range el {
+			if i > 0 {
+				b.WriteString(", ")
+			}
+			t.value(x.(map[string]any), b)
+		}
+		b.WriteString("]")
+	case "sa":
+		if !t.defined["\x00S"] {
+			t.ok = false
+		}
+		b.WriteString("*S ")
 	case "q":
 		b.WriteString("[")
 		el, _ := v["e"].([]any)
@@ -360,7 +399,10 @@ func runC07(args []string) {
 		if isCyc {
 			cyc++
 		}
-		for _, es := range asMap(c["g"]) {
+		for gk, es := range asMap(c["g"]) {
+			if gk == "S" {
+				continue // (a sequence of values, not a mapping's entries)
+			}
 			for _, e := range es.([]any) {
 				if m, _ := e.(map[string]any)["m"].(bool); m {
 					merges++
@@ -373,13 +415,16 @@ func runC07(args []string) {
 		}
 		for _, mode := range modes {
 			var ev obj
-			if (isCyc || c["child"] == true) && deaths >= 20 {
+			// every decode runs in the worker child: also a graph WITHOUT a value cycle may send a broken decoder
+			// into unbounded recursion (a merge cycle), and that must cost the child, not this driver
+			viaChild := true
+			if viaChild && deaths >= 20 {
 				// twenty inputs have already killed or hung the decoder: that is reported; the remaining
 				// child-bound inputs are not worth a process death each
 				abandoned++
 				continue
 			}
-			if isCyc || c["child"] == true {
+			if viaChild {
 				// decode in a child process: a stack overflow kills only the child
 				blank := obj{"mode": mode, "err": false, "result": obj{"t": "z"}, "indep": true, "timeout": false, "crash": false, "skipped": false}
 				line, status := worker.call(asciiJSON(obj{"c": c, "mode": mode}), 30*time.Second)
@@ -524,6 +569,7 @@ func c07RandomCase(rng *rand.Rand) obj {
 		if cyclic && c07Size(g, root, map[string]int{}) > 2000 {
 			continue
 		}
+		g["S"] = []any{}
 		return obj{"g": g, "root": root, "akeys": rng.Intn(2) == 0, "spell": rng.Intn(2) == 0, "child": cyclic, "cyc": false}
 	}
 }
@@ -574,9 +620,13 @@ func c07Aliased(g map[string]any) map[string]bool {
 			}
 		}
 	}
-	for _, es := range g {
+	for gk, es := range g {
 		for _, e := range es.([]any) {
-			walk(e.(map[string]any)["v"].(map[string]any))
+			if gk == "S" {
+				walk(e.(map[string]any))
+			} else {
+				walk(e.(map[string]any)["v"].(map[string]any))
+			}
 		}
 	}
 	return out
